@@ -223,6 +223,10 @@ class _Run:
             call_deadline=order[3] if t.draw(2, "call-deadline") else None,
             stub_md=bool(t.draw(2, "stub-md")), call_md=bool(t.draw(2, "call-md")),
             md_form=t.draw(2, "md-form"),
+            # a call-level value that is set but EMPTY ({} / []) still takes precedence: no metadata at all
+            call_md_empty=(t.draw(6, "call-md-empty") == 5),
+            # a call-level timeout of 0 is a value too (expires at once); faulted sub-batch only
+            call_timeout_zero=(small and t.draw(4, "call-timeout-zero") == 3),
         )
 
     async def client_task(self, ti: int, world, n_calls: int):
@@ -266,9 +270,16 @@ class _Run:
             elif fk == 2:
                 c.fault = "abandon"
             cfg = self._draw_cfg(small)
-            if not cfg["stub_md"] and not cfg["call_md"]:
+            if cfg["call_md_empty"]:
+                cfg["call_md"] = False
+                self.stats["probe:empty-call-level-metadata"] += 1
+            if cfg["call_timeout_zero"]:
+                cfg["call_timeout"] = 0.0
+                self.stats["probe:zero-call-level-timeout"] += 1
+            if (not cfg["stub_md"] or cfg["call_md_empty"]) and not cfg["call_md"]:
                 if md.route in self.no_md_routes:
                     cfg["call_md"] = True      # a second anonymous call on this route could not be told apart
+                    cfg["call_md_empty"] = False
                 else:
                     self.no_md_routes.add(md.route)
             c.cfg = cfg
@@ -288,7 +299,7 @@ class _Run:
             kwargs = dict(
                 timeout=cfg["call_timeout"],
                 deadline=None if cfg["call_deadline"] is None else Deadline.from_timeout(cfg["call_deadline"]),
-                metadata=form(mk_md("call") if cfg["call_md"] else None),
+                metadata=form(mk_md("call") if cfg["call_md"] else ({} if cfg["call_md_empty"] else None)),
             )
             pyname = gen.public_methods_in_order(stub_cls)[md.index]
             method = getattr(stub, pyname)
@@ -494,6 +505,7 @@ class _Run:
     def _trace_calls(self):
         for c in self.calls:
             cfg = c.cfg or dict(stub_timeout="?", call_timeout="?", stub_deadline="?", call_deadline="?", stub_md="?", call_md="?")
+            cfg = dict(cfg, call_md=("EMPTY" if cfg.get("call_md_empty") else cfg["call_md"]))
             self.trace.append(
                 f"call {c.idx} {c.md.route} {c.kind} src={getattr(c, 'src_kind', '?')} n_req={len(c.reqs)} "
                 f"req_sha={hashlib.sha1(b''.join(c.req_bytes)).hexdigest()[:8]} overridden={c.overridden} "
@@ -631,10 +643,10 @@ class _Run:
                             f"received {len(got)}: {[short(r, 60) for r in c.received][:4]}")
         self._check_server_view(c, where)
 
-    def _check_server_view(self, c: _Call, where: str):
+    def _check_server_view(self, c: _Call, where: str, required: bool = True):
         """H5: the server-side view (grpclib's own RecvRequest event) of deadline and metadata."""
         cfg = c.cfg
-        eff_md = "call" if cfg["call_md"] else ("stub" if cfg["stub_md"] else None)
+        eff_md = "call" if cfg["call_md"] else (None if cfg.get("call_md_empty") else ("stub" if cfg["stub_md"] else None))
         timeout = cfg["call_timeout"] if cfg["call_timeout"] is not None else cfg["stub_timeout"]
         cands = []
         if timeout is not None:
@@ -647,6 +659,10 @@ class _Run:
         evs = [e for e in self.recv_events if not e["matched"] and e["route"] == c.md.route]
         with_id = [e for e in evs if e["metadata"].get("x-call") == c.call_id]
         pool = with_id if with_id else [e for e in evs if "x-call" not in e["metadata"]]
+        if not required and not pool:
+            return                 # the interrupted call never reached the server
+        if not required and eff_md is not None and not with_id:
+            return
         if eff_md is not None and not with_id:
             raise Violation("C11.H5", "metadata-missing",
                             f"{where}: effective metadata is the {eff_md}-level one, but the server saw no request "
@@ -712,6 +728,8 @@ class _Run:
             raise Violation("C11.H2", "faulted-call-received-foreign-response",
                             f"{where}: received {[short(r, 60) for r in c.received][:4]} which is not a prefix of "
                             f"what the handler produces {[short(e, 60) for e in plan.responses][:4]}")
+        # if the request did reach the server, the server must have seen the effective parameters
+        self._check_server_view(c, where, required=False)
         if c.outcome in ("cancelled", "abandoned", "ok"):
             return
         if c.outcome == "grpc-error":
@@ -756,7 +774,7 @@ class GrpcSim(Simulator):
                    "Struct/Value/ListValue request/response types are not driven by the generic value generator",
                    "handlers consume the whole request stream before raising"]
     tiers = {
-        "quick": dict(runs=3000, chunk=50, wall_cap=300, det_sample=60),
+        "quick": dict(runs=12000, chunk=100, wall_cap=300, det_sample=120),
         "thorough": dict(runs=400000, chunk=200, wall_cap=1500, det_sample=1000),
     }
     faults_enabled = True
